@@ -133,6 +133,16 @@ RestartSidecar(i) ==
   /\ sc' = [sc EXCEPT ![i] = S!Restart(WithClock(sc[i]))]
   /\ UNCHANGED <<nsh, disc, size, alive, est, clock, envs, cyc, kvars>>
 
+\* faults of the platform: the StatefulSet is scaled down by one from outside; a pod is recreated with an empty volume
+ShrinkByOne ==
+  /\ pc = "idle" /\ nsh > 1 /\ faults < FaultBudget /\ faults' = faults + 1
+  /\ nsh' = nsh - 1 /\ sc' = [sc EXCEPT ![nsh] = Fresh(clock)]
+  /\ UNCHANGED <<disc, size, alive, est, clock, envs, cyc, kvars>>
+RecreatePod(i) ==
+  /\ pc = "idle" /\ i <= nsh /\ faults < FaultBudget /\ faults' = faults + 1
+  /\ sc' = [sc EXCEPT ![i] = Fresh(clock)]
+  /\ UNCHANGED <<nsh, disc, size, alive, est, clock, envs, cyc, kvars>>
+
 KInit ==
   /\ nsh = 1 /\ clock = 0 /\ faults = 0 /\ envs = 0 /\ cyc = "none"
   /\ sc = [i \in 1..MaxN |-> Fresh(0)]
